@@ -20,36 +20,69 @@ structure Node where
   parent : Option Nat
   prule  : Nat
   kind   : Char
+  /-- outcome per rule: true = returns nil -/
   rules  : List Bool
+  /-- the rule characters (o x O X r) -/
+  raw    : List Char
+  /-- c child monitor; n nested wait; d/l/u detached (new root monitor) -/
+  link   : Char
   deriving Repr
 
+/-- a UNIT: the cascade of one root monitor — the outer cascade of a plan cascade, or a nested /
+    detached cascade started by an action on a new root monitor -/
 structure Casc where
-  wait  : Bool
-  nodes : Array Node
+  wait     : Bool
+  detached : Bool
+  root     : Nat
+  nodes    : Array Node
+  /-- (unit, node, rule) whose action starts this unit -/
+  startedBy : Option (Nat × Nat × Nat)
 
 structure Plan where
   workers   : Nat
   failFirst : Bool
   ecal      : Bool
+  noHandler : Bool
   cascs     : List Casc
 
 def parseNode (s : String) : Option Node :=
-  match s.splitOn "." with
-  | [p, r, k, rs] =>
+  let f := s.splitOn "."
+  match f with
+  | p :: r :: k :: rs :: rest =>
     let kind := k.toList.headD 't'
-    let rules := if rs = "-" then [] else rs.toList.map (· == 'o')
-    if p = "-" then some { parent := none, prule := 0, kind, rules }
+    let raw := if rs = "-" then [] else rs.toList
+    let rules := raw.map fun ch => ch == 'o' || ch == 'O'
+    let link := (rest.head?.bind (·.toList.head?)).getD 'c'
+    if p = "-" then some { parent := none, prule := 0, kind, rules, raw, link := 'c' }
     else do
       let p ← p.toNat?
       let r ← r.toNat?
-      some { parent := some p, prule := r, kind, rules }
+      some { parent := some p, prule := r, kind, rules, raw, link }
   | _ => none
 
-def parseCasc (s : String) : Option Casc :=
+/-- the units of one plan cascade, in node order; `base` = index of the first one in the flat list -/
+def parseCasc (base : Nat) (s : String) : Option (List Casc) :=
   match s.splitOn "=" with
   | [m, ns] => do
     let nodes ← (ns.splitOn "/").mapM parseNode
-    some { wait := m = "w", nodes := nodes.toArray }
+    let arr := nodes.toArray
+    -- owner unit (local index) of every node
+    let mut owner : Array Nat := #[]
+    let mut units : List Casc := []
+    let mut ni := 0
+    for nd in nodes do
+      match nd.parent with
+      | none =>
+        owner := owner.push units.length
+        units := units ++ [{ wait := m = "w", detached := false, root := ni, nodes := arr, startedBy := none }]
+      | some pn =>
+        if nd.link != 'c' then
+          owner := owner.push units.length
+          units := units ++ [{ wait := nd.link == 'n', detached := nd.link != 'n', root := ni, nodes := arr,
+                               startedBy := some (base + owner.getD pn 0, pn, nd.prule) }]
+        else owner := owner.push (owner.getD pn 0)
+      ni := ni + 1
+    some units
   | _ => none
 
 def parsePlan (s : String) : Option Plan :=
@@ -58,19 +91,24 @@ def parsePlan (s : String) : Option Plan :=
     let mut workers := 1
     let mut ff := false
     let mut ecal := false
+    let mut noHandler := false
     for h in hdr.splitOn "," do
       let v := ((h.drop 1).toString.toNat?).getD 0
       if h.startsWith "W" then workers := v
       if h.startsWith "F" then ff := v == 1
       if h.startsWith "M" then ecal := v == 1
-    let cascs ← cs.mapM parseCasc
-    some { workers, failFirst := ff, ecal, cascs }
+      if h.startsWith "H" then noHandler := v == 0
+    let mut cascs : List Casc := []
+    for c in cs do
+      let us ← parseCasc cascs.length c
+      cascs := cascs ++ us
+    some { workers, failFirst := ff, ecal, noHandler, cascs }
   | _ => none
 
 def childrenOf (c : Casc) (n k : Nat) : List Nat :=
   (List.range c.nodes.size).filter fun i =>
     match c.nodes[i]? with
-    | some nd => nd.parent == some n && nd.prule == k
+    | some nd => nd.parent == some n && nd.prule == k && nd.link == 'c'
     | none => false
 
 /-- the `addEvent` event of plan node `n` for monitor `m` -/
@@ -154,33 +192,77 @@ def resultOf (p : Plan) (c : Casc) (s : State) (nodeOf : List Nat) : String :=
       | some rs => rs.map fun r => (nodeOf.getD i 9999, r)
       | none => [(9999, 9999)]
     let errs := sortPairs errs
-    let es := if errs.isEmpty then "-" else ",".intercalate (errs.map fun (n, k) => s!"{n}.{k}e")
+    -- error class: e = the planned error, r = (ECAL) the sink ended in `return`
+    let cls := fun (n k : Nat) => match (c.nodes[n]?).bind (·.raw[k]?) with
+      | some 'r' => "r"
+      | _ => "e"
+    let es := if errs.isEmpty then "-" else ",".intercalate (errs.map fun (n, k) => s!"{n}.{k}{cls n k}")
     -- through ECAL sinks the root monitor is created inside the builtin: handler and monitors are not observable
-    let hf := if p.ecal then "handler=- fin=-" else s!"handler={s.handlerCalls} fin={fin.length}/{handed.length}"
+    let hf := if p.ecal then "handler=- fin=-"
+      else if p.noHandler && c.wait && c.startedBy.isNone then s!"handler=- fin={fin.length}/{handed.length}"
+      else s!"handler={s.handlerCalls} fin={fin.length}/{handed.length}"
     s!"ret=1 early={pending.length} {hf} errs={es} foreign=0 nil=0"
 
-/-- run the plan of one cascade to its end; result line of the cascade -/
+/-- run the plan of one unit to its end on the transition system -/
+def runUnit (p : Plan) (c : Casc) : Option (State × List Nat) := do
+  let s := init p.workers p.failFirst
+  let s ← if c.wait then step s .register else some s
+  let s ← match addEv c 0 c.root with
+    | .addEvent _ true _ => step s .regHandler   -- AddEvent of a triggering root event: observer first
+    | _ => some s
+  let s ← step s (addEv c 0 c.root)
+  let work := match s.mons[0]? with
+    | some r => if r.phase == .queued then [0] else []
+    | none => []
+  let (s, nodeOf) ← taskLoop c 100000 work s #[c.root]
+  let s := repeatStep .post 2 s
+  let s := repeatStep (.observerRuns .queue) 1000 s
+  let s := repeatStep (.observerRuns .handler) 2 s
+  let s := repeatStep (.observerRuns .wait) 2 s
+  let s := repeatStep .waitReturns 1 s
+  some (s, nodeOf.toList)
+
+/-- number of rules of plan node `n` that execute (failOnFirstError cuts after the first failure) -/
+def rulesRun (p : Plan) (c : Casc) (n : Nat) : Nat :=
+  match c.nodes[n]? with
+  | some nd =>
+    if nd.kind != 't' then 0
+    else if p.failFirst then
+      match nd.rules.findIdx? (!·) with
+      | some i => i + 1
+      | none => nd.rules.length
+    else nd.rules.length
+  | none => 0
+
+/-- did rule `k` of plan node `n` run in the final state of its unit? -/
+def ranRule (p : Plan) (c : Casc) (s : State) (nodeOf : List Nat) (n k : Nat) : Bool :=
+  (nodeOf.zip s.mons).any (fun (nd, m) => nd == n && m.phase.finished && !m.skipped) && k < rulesRun p c n
+
+/-- result line of the unit (stand-alone: outer cascade, or a unit known to be started) -/
 def expected (p : Plan) (c : Casc) : String :=
-  let r : Option (State × Array Nat) := do
-    let s := init p.workers p.failFirst
-    let s ← if c.wait then step s .register else some s
-    let s ← match addEv c 0 0 with
-      | .addEvent _ true _ => step s .regHandler   -- AddEvent of a triggering root event: observer first
-      | _ => some s
-    let s ← step s (addEv c 0 0)
-    let work := match s.mons[0]? with
-      | some r => if r.phase == .queued then [0] else []
-      | none => []
-    let (s, nodeOf) ← taskLoop c 100000 work s #[0]
-    let s := repeatStep .post 2 s
-    let s := repeatStep (.observerRuns .queue) 1000 s
-    let s := repeatStep (.observerRuns .handler) 2 s
-    let s := repeatStep (.observerRuns .wait) 2 s
-    let s := repeatStep .waitReturns 1 s
-    some (s, nodeOf)
-  match r with
+  match runUnit p c with
   | none => "model-stuck"
-  | some (s, nodeOf) => resultOf p c s nodeOf.toList
+  | some (s, nodeOf) =>
+    if c.detached then
+      let done := (nodeOf.zip s.mons).foldl (fun a (nd, m) => if m.skipped then a else a + rulesRun p c nd) 0
+      s!"det done={done}"
+    else resultOf p c s nodeOf
+
+/-- all units of the plan, in order; a unit runs iff the rule that starts it ran in its parent unit -/
+def expectedAll (p : Plan) : List String :=
+  let rec go (cs : List Casc) (acc : List (Option (State × List Nat)) ) (out : List String) : List String :=
+    match cs with
+    | [] => out.reverse
+    | c :: rest =>
+      let started := match c.startedBy with
+        | none => true
+        | some (pu, n, k) =>
+          match acc.reverse[pu]?, p.cascs[pu]? with
+          | some (some (s, nodeOf)), some pc => ranRule p pc s nodeOf n k
+          | _, _ => false
+      if started then go rest (runUnit p c :: acc) (expected p c :: out)
+      else go rest (none :: acc) ("notrun" :: out)
+  go p.cascs [] []
 
 def nontrivial (p : Plan) : Bool :=
   p.cascs.any fun c => c.nodes.size ≥ 3 && c.nodes.any fun n => n.rules.any (!·)
@@ -189,7 +271,7 @@ def runCase (payload : String) : String :=
   match parsePlan payload with
   | none => "bad-payload"
   | some p =>
-    " ; ".intercalate (p.cascs.map (expected p)) ++ (if nontrivial p then "\tnt=1" else "")
+    " ; ".intercalate (expectedAll p) ++ (if nontrivial p then "\tnt=1" else "")
 
 /-! ### exhaustive exploration of a plan on the transition system -/
 
@@ -232,7 +314,7 @@ def enabledEvents (p : Plan) (c : Casc) (x : XState) : List (Event × Option Nat
   let rootFresh : Bool := match s.mons[0]? with
     | some r => r.phase == .fresh
     | none => false
-  let rootEv := addEv c 0 0
+  let rootEv := addEv c 0 c.root
   let adder : List (Event × Option Nat) :=
     if rootFresh == true then
       if c.wait && !s.waiting then [(.register, none)]
@@ -316,7 +398,7 @@ partial def exploreLoop (p : Plan) (c : Casc) (work : List XState) (acc : Explor
     exploreLoop p c work' acc
 
 def explore (p : Plan) (c : Casc) : Explored :=
-  let x0 : XState := { s := init p.workers p.failFirst, nodeOf := [0] }
+  let x0 : XState := { s := init p.workers p.failFirst, nodeOf := [c.root] }
   exploreLoop p c [x0] { seen := ({} : Std.HashSet (List Nat)).insert (key c x0) }
 
 /-- `driver C02 explore`: payload = plan with ONE cascade -/
@@ -418,7 +500,7 @@ def replayTok (c : Casc) (s : State) (tok : String) : RM State := do
 /-- replay the tokens of one cascade; returns (number of tokens, legacy?, keys of the states visited when `collect`) -/
 def replayCasc (p : Plan) (c : Casc) (toks : List String) (collect : Bool := false) :
     Except String (Nat × Bool × List (List Nat)) := do
-  let mut x : XState := { s := init p.workers p.failFirst, nodeOf := [0] }
+  let mut x : XState := { s := init p.workers p.failFirst, nodeOf := [c.root] }
   let mut k := 0
   let mut keys : List (List Nat) := if collect then [key c x] else []
   -- a tree without the call sites `cascade.handler.registered` / `cascade.added` (hooks/C02b.patch):
@@ -443,6 +525,8 @@ def replayCasc (p : Plan) (c : Casc) (toks : List String) (collect : Bool := fal
       if collect then keys := key c x :: keys
     | .error e => throw s!"{k} {t} {e}"
     k := k + 1
+  -- a unit that was never started has no events
+  if toks.isEmpty && c.startedBy.isSome then return (0, false, keys)
   -- end of the recorded run: the cascade is over
   let s := x.s
   if s.posted != 1 then throw "finished message not posted exactly once at the end of the trace"
